@@ -13,7 +13,7 @@ from pedal.sandbox.result import unwrap_value
 HERE = os.path.dirname(os.path.abspath(__file__))
 
 
-def sandbox_side(src, inputs, calls, files=None, threaded=False):
+def sandbox_side(src, inputs, calls, files=None, threaded=False, input_mode='set'):
     if files:
         from pedal.core.submission import Submission
         MAIN_REPORT.clear()
@@ -28,7 +28,19 @@ def sandbox_side(src, inputs, calls, files=None, threaded=False):
         sb.threaded = True
         sb.allowed_time = 10
     if inputs:
-        S.set_input(list(inputs))
+        inputs = list(inputs)
+        if input_mode == 'queue' and len(inputs) >= 2:
+            # the same queue built by several queue_input calls
+            S.queue_input(inputs[0])
+            S.queue_input(*inputs[1:])
+        elif input_mode == 'set+queue' and len(inputs) >= 2:
+            S.set_input(inputs[:1])
+            S.queue_input(*inputs[1:])
+        elif input_mode == 'set-keep' and len(inputs) >= 2:
+            S.set_input(inputs[:-1])
+            S.set_input(inputs[-1:], clear=False)
+        else:
+            S.set_input(inputs)
     try:
         S.run()
     except BaseException as e:
@@ -161,7 +173,7 @@ def main():
         return
     out = []
     for p in data['programs']:
-        out.append({'sandbox': sandbox_side(p['src'], p['inputs'], p.get('calls', []), p.get('files'), p.get('threaded', False)),
+        out.append({'sandbox': sandbox_side(p['src'], p['inputs'], p.get('calls', []), p.get('files'), p.get('threaded', False), p.get('input_mode', 'set')),
                     'plain': plain_side(p['src'], p['inputs'], p.get('calls', []), p.get('files'))})
     json.dump(out, open(sys.argv[1], 'w'))
 
